@@ -44,6 +44,13 @@ inline bool drop_S(Rng& r, uint64_t idx)
     SW* sp = &s;
     run.run_on(s, [sp, ot] { (*ot)[sp->tid] = static_cast<uint32_t>(syscall(SYS_gettid)); }, "gettid");
   }
+  // loggers that are only ever removed (blocking) under flood
+  std::vector<Lg*> victims;
+  for (int i = 0; i < 2; ++i)
+  {
+    std::vector<std::shared_ptr<quill::Sink>> v{w.sinks[0]};
+    victims.push_back(Fe::create_or_get_logger(w.tag + "_victim" + std::to_string(i), std::move(v), quill::PatternFormatterOptions{"%(message)"}, quill::ClockSourceType::System));
+  }
   uint32_t const policy = static_cast<uint32_t>(r.below(4)); // 0 never poll during the phase, 1 after every k, 2 only when a drop was seen, 3 often
   uint32_t const k = static_cast<uint32_t>(r.range(2, 20));
   uint32_t const steps = static_cast<uint32_t>(r.range(30, 300));
@@ -90,6 +97,24 @@ inline bool drop_S(Rng& r, uint64_t idx)
       ++flush_under_flood;
       uint16_t li = static_cast<uint16_t>(r.below(w.loggers.size()));
       run.run_on(s, [wp, li] { tl_control_op = true; wp->loggers[li].lg->flush_log(0); tl_control_op = false; }, "flush_log");
+    }
+    else if (x < 97)
+    {
+      // other control requests under flood: backtrace init / flush and blocking logger removal are retried until they
+      // fit, are never discarded and are not "dropped messages"
+      ++flush_under_flood;
+      uint16_t li = static_cast<uint16_t>(r.below(w.loggers.size()));
+      uint64_t which = r.below(3);
+      if (which == 2 && !victims.empty())
+      {
+        Lg* v = victims.back();
+        victims.pop_back();
+        run.run_on(s, [v] { tl_control_op = true; Fe::remove_logger_blocking(v, 0); tl_control_op = false; }, "remove_logger_blocking");
+      }
+      else if (which == 1)
+        run.run_on(s, [wp, li] { tl_control_op = true; wp->loggers[li].lg->flush_backtrace(); tl_control_op = false; }, "flush_backtrace");
+      else
+        run.run_on(s, [wp, li] { tl_control_op = true; wp->loggers[li].lg->init_backtrace(4); tl_control_op = false; }, "init_backtrace");
     }
     else if (run.ws.size() < 7)
     {
@@ -145,6 +170,7 @@ inline bool drop_S(Rng& r, uint64_t idx)
   stat_add("drop_control_requests_under_flood", static_cast<long long>(flush_under_flood));
   stat_add("drop_threads_exited_with_pending_drop_count", static_cast<long long>(exits_with_drops));
   if (drops) stat_sig("drop_sigs", std::to_string(run.sig_hash));
+  for (Lg* v : victims) Fe::remove_logger(v);
   w.teardown_loggers();
   return ok && !run.failed;
 }
@@ -182,6 +208,7 @@ inline bool drop_F(Rng& r, uint64_t idx)
                                uint32_t len = tr.chance(1, 40) ? static_cast<uint32_t>(kMaxPayload + 5) : tr.chance(1, 8) ? static_cast<uint32_t>(tr.range(kMaxPayload / 4, kMaxPayload)) : static_cast<uint32_t>(tr.range(0, 100));
                                log_maybe_throw(ts[t].issues, w.loggers[li].lg, li, t + 1, s, len, threw);
                                if (tr.chance(1, 50)) w.loggers[li].lg->flush_log(tr.chance(1, 2) ? 100 : 0);
+                               if (tr.chance(1, 70)) { if (tr.chance(1, 2)) w.loggers[li].lg->init_backtrace(4); else w.loggers[li].lg->flush_backtrace(); }
                              }
                            });
   }
